@@ -52,4 +52,6 @@ InvMulWRaw700 == (Q(QW) /\ Q(QV)) => Rep(MulWRawFree700(a, b, QW, QV), QW + (QV 
 InvMulWRaw600 == (Q(QW) /\ Q(QV)) => Rep(MulWRawFree600(a, b, QW, QV), QW + (QV * Beta))
 InvMulRaw700 == (Q(a) /\ Q(b) /\ Q(QW) /\ Q(QV)) => Rep(MulRawFree700(0, 0, a, b, QW, QV), a + (b * T) + ((QW + QV) * Beta))
 InvMulRaw600 == (Q(a) /\ Q(b) /\ Q(QW) /\ Q(QV)) => Rep(MulRawFree600(0, 0, a, b, QW, QV), a + (b * T) + ((QW + QV) * Beta))
+(* the width constant of the shift / literal scaling of Ptx.tla at full width *)
+InvPtxW == Pow2(W) = Phi /\ Pow2(2 * W) = T /\ Bits(Beta) = 32 /\ Bits(T) = 64
 ====
